@@ -335,9 +335,12 @@ pub fn run_check(a: &CheckArgs) -> i32 {
         let path = format!("{}/replays/{}-{}-{}.json", verif_root(), prop, a.seed, first.u("index"));
         // an un-minimised but strict replay file first, so that a timeout never loses it
         let _ = std::fs::write(&path, first.pretty());
-        let min_budget = Duration::from_secs(if a.thorough { 60 } else { 20 });
+        // VERIF_MINIMISE_S overrides the minimisation budget (0 = keep the strict replay file
+        // as it is); used by the mutation screening, which only needs the verdict
+        let min_secs = std::env::var("VERIF_MINIMISE_S").ok().and_then(|x| x.parse::<u64>().ok()).unwrap_or(if a.thorough { 60 } else { 20 });
+        let min_budget = Duration::from_secs(min_secs);
         let is_hang = first.get("hang").and_then(|x| x.as_bool()).unwrap_or(false);
-        if !is_hang {
+        if !is_hang && min_secs > 0 {
             // minimise in a child process with a hard time limit: on a broken tree a single
             // execution may never return
             let out_path = format!("{}.min", path);
